@@ -2,6 +2,7 @@ package display
 
 import (
 	"fmt"
+	"strings"
 
 	"github.com/reeflective/readline/inputrc"
 	"github.com/reeflective/readline/internal/color"
@@ -257,14 +258,25 @@ func (e *Engine) displayLine() {
 	}
 
 	// Format tabs as spaces, for consistent display
-	line = strutil.FormatTabs(line) + term.ClearLineAfter
+	line = strutil.FormatTabs(line)
+
+	// The last row is full when something was printed on it (the prompt, or
+	// characters after the last newline) and it ends on the last column.
+	text := string(*e.line)
+	fullRow := e.lineCol == 0 && (e.startCols > 0 || (text != "" && !strings.HasSuffix(text, "\n")))
+
+	// Clear what follows the line on its last row, except when this row is full: the
+	// cursor then stays on the last column, and clearing would erase the last character.
+	if !fullRow {
+		line += term.ClearLineAfter
+	}
 
 	// And display the line.
 	e.suggested.Set([]rune(line)...)
 	core.DisplayLine(&e.suggested, e.startCols)
 
 	// Adjust the cursor if the line fits exactly in the terminal width.
-	if e.lineCol == 0 {
+	if fullRow {
 		fmt.Print(term.NewlineReturn)
 		fmt.Print(term.ClearLineAfter)
 	}
